@@ -11,6 +11,7 @@ from . import common as K
 from .c16 import params_snapshot
 
 ID = "C17"
+REACH_TARGETS = [('Adapter.set_params', 'formak.python:SklearnEKFAdapter.set_params'), ('Adapter.fit', 'formak.python:SklearnEKFAdapter.fit'), ('Adapter._inverse_flatten_scoring_params', 'formak.python:SklearnEKFAdapter._inverse_flatten_scoring_params')]
 LEVEL = "exploration"
 RULE = ("round-trip units: estimators created with an explicit Config (every field at a non-default value class) "
         "over random definitions with 0-3 controls and 1-3 sensors x 1-3 readings: set_params(**get_params()), "
